@@ -166,10 +166,21 @@ DIR_ELEMS = set(['i18n:msg', 'i18n:choose', 'i18n:singular', 'i18n:plural', 'i18
 
 
 def cfg_args(cfg):
+    """constructor arguments of the Translator; the library's own IGNORE_TAGS / INCLUDE_ATTRS are
+    used (not passed) when the case has the default lists, other tag names are given with and
+    without the XHTML namespace as the library's default does"""
     from genshi.core import QName
-    return dict(ignore_tags=frozenset(QName(t) for t in cfg['ignore_tags']),
-                include_attrs=frozenset(cfg['include_attrs']),
-                extract_text=cfg['extract_text'])
+    args = dict(extract_text=cfg['extract_text'])
+    if list(cfg['ignore_tags']) != list(G.IGNORED):
+        args['ignore_tags'] = frozenset([QName(t) for t in cfg['ignore_tags']] +
+                                        [QName('%s}%s' % (G.NS_XHTML, t)) for t in cfg['ignore_tags']])
+    if list(cfg['include_attrs']) != list(G.INCL_ATTRS):
+        args['include_attrs'] = frozenset(cfg['include_attrs'])
+    return args
+
+
+def src(case, **kw):
+    return G.source(case['tmpl'], xhtml=bool(case.get('xhtml')), **kw)
 
 
 def gen_with(case, f, api='full', func_api=False):
@@ -178,7 +189,7 @@ def gen_with(case, f, api='full', func_api=False):
     from genshi.filters.i18n import Translator
     cat = Catalogue(f, api)
     try:
-        tmpl = MarkupTemplate(G.source(case['tmpl']))
+        tmpl = MarkupTemplate(src(case))
         tr = Translator(cat.gettext if func_api else cat, **cfg_args(case['cfg']))
         tr.setup(tmpl)
         data = dict(case['data'])
@@ -199,7 +210,7 @@ def gen_ref(case, f, identity=False, code_f=None):
     except (ValueError, KeyError) as e:
         return ['norefer', type(e).__name__]
     try:
-        tmpl = MarkupTemplate(G.source(tree, i18n=False))
+        tmpl = MarkupTemplate(G.source(tree, i18n=False, xhtml=bool(case.get('xhtml'))))
         data = dict(case['data'])
         g = code_f or f
         data['_'] = g
@@ -213,7 +224,7 @@ def extract_ids(case):
     """message ids reported by extraction from a fresh template"""
     from genshi.template import MarkupTemplate
     from genshi.filters.i18n import Translator
-    tmpl = MarkupTemplate(G.source(case['tmpl']))
+    tmpl = MarkupTemplate(src(case))
     tr = Translator(None, **cfg_args(case['cfg']))
     tmpl.add_directives(Translator.NAMESPACE, tr)
     ids = set()
@@ -300,7 +311,7 @@ def check_excluded(case, w, r0):
         aw = [p for p in sw[2] if p[0] not in incl]
         if ar != aw:
             return {'what': 'attributes outside include_attrs are untouched', 'expected': ar, 'observed': aw}
-        tag = sr[1]
+        tag = sr[1].split('}')[-1]
         if tag in cfg['ignore_tags'] or key[0] in lang:
             if r0[a:b + 1] != w[c:d + 1]:
                 return {'what': 'content of ignored tags / xml:lang elements is untouched',
@@ -382,6 +393,8 @@ def valid_case(case):
         k = n[0]
         if k in ('t', 'c'):
             return len(n) == 2 and isinstance(n[1], str)
+        if k == 'pi':
+            return len(n) == 2 and isinstance(n[1], str) and bool(re.match(r"^v\d+ = _\('\w+'\)$", n[1]))
         if k == 'x':
             return len(n) == 2 and isinstance(n[1], str) and bool(expr_ok.match(n[1]))
         if k == 'e':
@@ -410,7 +423,7 @@ def valid_case(case):
             if v not in case.get('data', {}):
                 return False
         from genshi.template import MarkupTemplate
-        MarkupTemplate(G.source(case['tmpl'])).stream
+        MarkupTemplate(src(case)).stream
         return True
     except Exception:  # noqa
         return False
@@ -610,15 +623,15 @@ def errname(e):
     return type(e).__name__
 
 
-def wire_cfg(cfg):
-    from genshi.core import QName
-    return [[str(QName(t)) for t in cfg['ignore_tags']], list(cfg['include_attrs']), B(cfg['extract_text'])]
+def wire_cfg(tr):
+    """the configuration the Translator instance really has (defaults included)"""
+    return [sorted(str(t) for t in tr.ignore_tags), sorted(str(a) for a in tr.include_attrs), B(tr.extract_text)]
 
 
 def fresh_template(case):
     from genshi.template import MarkupTemplate
     from genshi.filters.i18n import Translator
-    tmpl = MarkupTemplate(G.source(case['tmpl']))
+    tmpl = MarkupTemplate(src(case))
     tr = Translator(None, **cfg_args(case['cfg']))
     tmpl.add_directives(Translator.NAMESPACE, tr)
     return tmpl, tr
@@ -643,7 +656,7 @@ def corr_lines(case, rng):
     ctxt = Context()
     for k, v in reversed(frames):
         ctxt.push({'_i18n.domain' if k == 'd' else '_i18n.context': v})
-    line = proto.line(Atom('C19'), Atom('translate'), wire_cfg(case['cfg']), Atom(catkind),
+    line = proto.line(Atom('C19'), Atom('translate'), wire_cfg(tr), Atom(catkind),
                       [[Atom(k), v] for k, v in frames], B(tt), B(ta), wired)
     try:
         res = list(tr(stream, ctxt, translate_text=tt, translate_attrs=ta))
@@ -655,7 +668,7 @@ def corr_lines(case, rng):
     tmpl, tr = fresh_template(case)
     w = Wire()
     wired = w.stream(tmpl.stream)
-    line = proto.line(Atom('C19'), Atom('extract'), wire_cfg(case['cfg']), wired)
+    line = proto.line(Atom('C19'), Atom('extract'), wire_cfg(tr), wired)
     try:
         msgs = []
         for lineno, func, msg, comments in tr.extract(tmpl.stream):
@@ -908,6 +921,8 @@ def features(tree):
                 fs.add('code-gettext')
         elif n[0] == 'c':
             fs.add('comment')
+        elif n[0] == 'pi':
+            fs.add('python-pi')
     for n in tree:
         walk(n, None)
     return fs
@@ -946,13 +961,15 @@ def shard(arg):
             res.count('tmpl:' + ft)
         if not c['cfg']['extract_text']:
             res.count('cfg:extract_text=False')
+        if c.get('xhtml'):
+            res.count('tmpl:xhtml-namespace')
         if c['cfg']['ignore_tags'] != list(G.IGNORED):
             res.count('cfg:ignore_tags-changed')
         if c['cfg']['include_attrs'] != list(G.INCL_ATTRS):
             res.count('cfg:include_attrs-changed')
         if fs & set(['i18n:msg', 'element:i18n:msg', 'i18n:choose', 'element:i18n:choose', 'ignored-tag',
                      'xml:lang-literal', 'attr-included', 'i18n:domain', 'i18n:ctxt']):
-            res.nontrivial.add(hashlib.sha1((G.source(c['tmpl']) + c['cat']).encode('utf-8')).hexdigest()[:16])
+            res.nontrivial.add(hashlib.sha1((src(c) + c['cat']).encode('utf-8')).hexdigest()[:16])
         f = oracle_case(c)
         if f:
             res.failures.append(f)
@@ -977,7 +994,7 @@ def run(ctx):
                 'py:if/for/strip) x catalogue (identity, scramble, permuting, dropping) x configuration; non-trivial = the '
                 'template has a message directive, an excluded region, a translated attribute or a domain/context; '
                 'distinct by (source, catalogue)')
-    res.samples = [{'source': G.source(c['tmpl']), 'cat': c['cat'], 'cfg': c['cfg']} for c in res.samples[:4]]
+    res.samples = [{'source': src(c), 'cat': c['cat'], 'cfg': c['cfg']} for c in res.samples[:4]]
     return res
 
 
